@@ -64,7 +64,16 @@ PATTERNS = [
     ("unreachable", re.compile(r"\bunreachable!\s*\(")),
     ("unimplemented", re.compile(r"\b(?:unimplemented|todo)!\s*\(")),
     ("split_at", re.compile(r"\.split_at(?:_mut)?\(")),
-    ("remove_index", re.compile(r"\.(?:remove|swap_remove)\(\s*[0-9]")),
+    # fourth audit: `remove` / `swap_remove` with ANY argument that is not a reference or a string literal (a `&key`
+    # cannot be a Vec index); whether the receiver is a map or a vector is decided per entry (`receiver_map`)
+    ("remove_index", re.compile(r"\.(?:remove|swap_remove)\(\s*(?![&\"\s])")),
+    # `insert` with two arguments (Vec::insert(i, x) panics for i > len; a set's insert has one argument)
+    ("insert", re.compile(r"\.insert\(")),
+    ("vec_op", re.compile(r"\.(?:swap|drain|split_off|rotate_left|rotate_right|chunks|chunks_exact|chunks_mut|windows|step_by|"
+                          r"copy_from_slice|clone_from_slice|select_nth_unstable)\(")),
+    # shifts (overflow panics in debug builds), integer / BigInt powers and the floor divisions of num-integer
+    ("shift", re.compile(r"(?<=[A-Za-z0-9_\)\]])\s+(?:<<|>>)=?\s+(?=[A-Za-z0-9_\(&*])")),
+    ("pow", re.compile(r"(?<!fn )(?:\.|::|\b)(?:pow|modpow|div_floor|mod_floor|div_rem|div_mod_floor|modinv|nth_root|sqrt)\s*\(")),
     ("from_str_radix", re.compile(r"\bfrom_str_radix\(")),
     ("exit", re.compile(r"\b(?:process::)?(?:exit|abort)\(")),
     ("borrow", re.compile(r"\.borrow(?:_mut)?\(\)")),
@@ -251,6 +260,67 @@ def functions(code, lalrpop):
     return out
 
 
+def top_level_args(code, open_paren):
+    """Number of top-level arguments of the call whose `(` is at open_paren (0 for `()`)."""
+    depth, n, seen = 0, 0, False
+    for k in range(open_paren, min(len(code), open_paren + 4000)):
+        ch = code[k]
+        if ch in "([{":
+            depth += 1
+        elif ch in ")]}":
+            depth -= 1
+            if depth == 0:
+                return n + 1 if seen else 0
+        elif ch == "," and depth == 1:
+            n += 1
+        elif depth >= 1 and not ch.isspace():
+            seen = True
+        if ch == "|" and depth == 1:
+            pass
+    return 2
+
+
+MAP_TYPES = r"(?:HashMap|HashSet|BTreeMap|BTreeSet|IndexMap|IndexSet)"
+
+
+def receiver_name(code, pos):
+    """Last identifier of the receiver chain that ends at the `.` at pos (`self.template_cfgs.insert(` -> template_cfgs)."""
+    m = re.search(r"([A-Za-z_][A-Za-z0-9_]*)\s*$", code[max(0, pos - 120):pos])
+    return m.group(1) if m else None
+
+
+def _all_sources():
+    if not _sources:
+        for crate in CRATES:
+            for f in common.tree_files(os.path.join(common.REPO, crate, "src"), (".rs", ".lalrpop")):
+                rel = os.path.relpath(f, common.REPO)
+                _sources[rel] = drop_tests(blank(open(f, encoding="utf-8", errors="replace").read()))
+    return _sources
+
+
+def map_receiver(rel, name):
+    """The map / set type the identifier `name` is DECLARED with in file rel (field, parameter, `let` with a type or
+    with a `HashMap::..` constructor; a type alias of the workspace is followed once), or None."""
+    code = _all_sources().get(rel, "")
+    n = re.escape(name)
+    if re.search(r"\b%s\s*:\s*(?:&\s*(?:'\w+\s+)?(?:mut\s+)?)?(?:Vec|VecDeque|\[|NonEmptyVec|String|BasicBlockVec)" % n, code) or \
+            re.search(r"\b%s\s*(?::[^=;]*)?=\s*(?:Vec::|vec!|VecDeque::|String::)" % n, code):
+        return None         # the file declares something of that name that is a sequence: decided by hand
+    m = re.search(r"\b%s\s*:\s*(?:&\s*(?:'\w+\s+)?(?:mut\s+)?)?(?:std::collections::)?(%s)\b" % (n, MAP_TYPES), code)
+    if m:
+        return m.group(1)
+    m = re.search(r"\b%s\s*(?::[^=;]*)?=\s*(?:std::collections::)?(%s)::" % (n, MAP_TYPES), code)
+    if m:
+        return m.group(1)
+    for m in re.finditer(r"\b%s\s*:\s*(?:&\s*(?:'\w+\s+)?(?:mut\s+)?)?([A-Z][A-Za-z0-9_]*)\b" % n, code):
+        alias = m.group(1)
+        for other in _all_sources().values():
+            a = re.search(r"\btype\s+%s\s*(?:<[^>]*>)?\s*=\s*(?:std::collections::)?(%s)\b" % (re.escape(alias), MAP_TYPES), other)
+            if a:
+                return a.group(1) + " (alias %s)" % alias
+    return None
+
+
 def stmt_bounds(code, pos):
     """[a, b) of the statement around pos: from the previous `;` `{` `}` `,` to the next one (in the blanked code)."""
     a = pos
@@ -283,6 +353,10 @@ def scan_file(rel):
                     continue
             if kind in ("add", "mul") and small_or_bound(code, m, kind):
                 continue
+            if kind == "insert" and top_level_args(code, m.end() - 1) < 2:
+                continue
+            if kind == "pow" and re.search(r"\bfn\s+$", code[max(0, pos - 8):pos + 1].replace(".", " ").replace(":", " ")):
+                continue
             ln = bisect.bisect_right(line_start, pos) - 1
             a = line_start[ln]
             b = line_start[ln + 1] if ln + 1 < len(line_start) else len(text)
@@ -297,7 +371,8 @@ def scan_file(rel):
             sa, sb = stmt_bounds(code, pos)
             sites.append({"file": rel, "fn": fn, "kind": kind, "text": norm, "line": ln + 1, "pos": pos,
                           "shape": shape_of(code[sa:sb]),
-                          "fn_before": re.sub(r"\s+", " ", text[fa:pos]), "fn_before_code": code[fa:b]})
+                          "fn_before": re.sub(r"\s+", " ", text[fa:pos]), "fn_before_code": code[fa:b], "fn_start": fa,
+                          "at_site": code[pos:pos + 80]})
     return sites
 
 
@@ -361,18 +436,27 @@ _sources = {}
 
 
 def called_outside(method, own_file):
-    """Files (non-test code of the four crates) other than own_file that call `.method(` or `::method(`."""
-    if not _sources:
-        for crate in ("cli", "parser", "program_structure", "program_analysis", "circom_algebra"):
-            for f in common.tree_files(os.path.join(common.REPO, crate, "src"), (".rs", ".lalrpop")):
-                rel = os.path.relpath(f, common.REPO)
-                _sources[rel] = drop_tests(blank(open(f, encoding="utf-8", errors="replace").read()))
+    """Files (non-test code of the five crates) that call `.method(` or `::method(`.  Fourth audit: the defining file
+    is searched too (a call from another method of the same file is a call); the definition `fn method(` itself is
+    not a call."""
     rx = re.compile(r"(?:\.|::)%s\s*\(" % re.escape(method))
-    return [rel for rel, code in sorted(_sources.items()) if rel != own_file and rx.search(code)]
+    return [rel for rel, code in sorted(_all_sources().items()) if rx.search(code)]
+
+
+def call_counts(method):
+    """{file: number of `.method(` / `::method(` calls} over the non-test code of the five crates."""
+    rx = re.compile(r"(?:\.|::)%s\s*\(" % re.escape(method))
+    out = {}
+    for rel, code in sorted(_all_sources().items()):
+        n = len(rx.findall(code))
+        if n:
+            out[rel] = n
+    return out
 
 
 _cited = {}
 _drift = []
+_relocated = []
 DISPOSITIONS = ("discharged_by", "guarded", "outside_model", "observed_only")
 _last = {}
 
@@ -390,6 +474,28 @@ def validate(sites, pmap):
     valid, problems = {}, []
     drift = _drift
     del drift[:]
+    # fourth audit: a function that was RENAMED or MOVED to another file takes its entries along.  A site without an
+    # entry is paired with an entry without a site when kind and statement shape agree and either the file or the
+    # function name is the same; the pairing is counted (`entries_followed_to_a_renamed_or_moved_function`), the
+    # entry is then validated against the site like any other (guards, citations, call counts).
+    pmap = dict(pmap)
+    del _relocated[:]
+    have = set(s["key"] for s in sites)
+    orphans = sorted(k for k in pmap if k not in have)
+
+    def parts(key):
+        bits = key.split("::")
+        return bits[0], "::".join(bits[1:-1]), bits[-1].split("#")[0]
+    for s in sites:
+        if s["key"] in pmap:
+            continue
+        for k in orphans:
+            f, fn, kind = parts(k)
+            if kind == s["kind"] and pmap[k].get("shape") == s["shape"] and (f == s["file"] or fn == s["fn"]):
+                pmap[s["key"]] = pmap.pop(k)
+                orphans.remove(k)
+                _relocated.append((k, s["key"]))
+                break
     for s in sites:
         e = pmap.get(s["key"])
         if e is None:
@@ -417,9 +523,30 @@ def validate(sites, pmap):
         if "guard_text" in e:
             g = re.sub(r"\s+", " ", e["guard_text"]).strip()
             # literally, or up to the names of locals (a renamed local does not remove a guard)
-            if not g or (g not in s["fn_before"] and g not in s["text"]
-                         and shape_of(blank(g), None) not in shape_of(s["fn_before_code"], None)):
+            # fourth audit: the guard must PRECEDE the site (the site's own line does not count: `[..]`, `env.prime()`
+            # used to be "guards" satisfied by the very expression they guard - those are `site_is` entries now)
+            if not g or (g not in s["fn_before"]
+                         and shape_of(blank(g), None) not in shape_of(s["fn_before_code"][:s["pos"] - s["fn_start"]], None)):
                 problems.append("guard `%s` no longer precedes the site inside its function: %s" % (g, s["key"]))
+                ok = False
+        if "site_is" in e:
+            # the expression AT the site, white space removed, starts with this text (e.g. `[..]`: a full-range slice)
+            here = re.sub(r"\s+", "", s["at_site"])
+            if not here.startswith(re.sub(r"\s+", "", e["site_is"])):
+                problems.append("the site no longer reads `%s` (it reads `%s`): %s" % (e["site_is"], s["at_site"][:40], s["key"]))
+                ok = False
+        if "receiver_map" in e:
+            got = map_receiver(s["file"], e["receiver_map"])
+            if receiver_name(_all_sources().get(s["file"], ""), s["pos"]) != e["receiver_map"] or not got:
+                problems.append("the receiver of the call is no longer `%s` declared as a map / set in %s: %s"
+                                % (e["receiver_map"], s["file"], s["key"]))
+                ok = False
+        if "call_counts" in e:
+            now = call_counts(e["call_counts"]["method"])
+            if now != e["call_counts"]["counts"]:
+                diff = sorted(set(now.items()) ^ set(e["call_counts"]["counts"].items()))
+                problems.append("the calls of a method named %s changed (%s); the entry of %s was written for %s"
+                                % (e["call_counts"]["method"], diff[:4], s["key"], e["call_counts"]["counts"]))
                 ok = False
         if "guard_in" in e:
             try:
@@ -444,7 +571,7 @@ def validate(sites, pmap):
                 problems.append("method %s is now also called from %s, the entry of %s lists its callers as %s"
                                 % (e["called_only_from"]["method"], callers[0], s["key"], sorted(allowed)))
                 ok = False
-        if "guarded" in e and not any(k in e for k in ("guard_text", "guard_in", "uncalled", "called_only_from")):
+        if "guarded" in e and not any(k in e for k in ("guard_text", "guard_in", "uncalled", "called_only_from", "site_is", "receiver_map", "call_counts")):
             problems.append("guarded entry without a checkable guard: " + s["key"])
             ok = False
         if not (e.get("why") or e.get("observed_only") or e.get("outside_model") or "").strip() and "discharged_by" not in e:
@@ -530,11 +657,14 @@ def generate():
     _sources.clear()
     _last.clear()
     _last.update({"sites": len(sites), "by_disposition": by, "problems": problems[:40], "problem_count": len(problems),
-                  "stale_map_entries": len(stale), "entries_whose_line_text_drifted_shape_kept": len(_drift),
+                  "stale_map_entries": len(stale), "stale_map_entries_listed": stale[:20], "entries_whose_line_text_drifted_shape_kept": len(_drift),
+                  "entries_followed_to_a_renamed_or_moved_function": len(_relocated), "relocations": _relocated[:10],
                   "keying": "file::fn::kind#ordinal-in-fn; secondary hint: shape of the enclosing statement",
                   "files_scanned": len(_last_files), "time_box": time_box(), "by_kind": _count(sites, "kind"), "files": len(set(s["file"] for s in sites))})
     for p in problems[:12]:
         common.log("panic-site inventory: " + p)
+    for k in stale[:12]:
+        common.log("panic-site inventory: entry without a site (the site was removed or its function renamed / moved): " + k)
     return sites, valid, problems, stale
 
 
@@ -547,14 +677,17 @@ def time_box():
     except OSError:
         return {"seconds": None, "uses": 0}
     m = re.search(r"\bconst\s+MAX_ANALYSIS_DURATION\s*:\s*(?:std::time::)?Duration\s*=\s*(?:std::time::)?Duration::"
-                  r"(from_secs|from_millis|from_micros|from_nanos|from_secs_f64|from_secs_f32|new)\s*\(\s*([0-9_\.]+)\s*(?:,\s*([0-9_]+)\s*)?\)", code)
+                  r"(from_secs|from_millis|from_micros|from_nanos|from_secs_f64|from_secs_f32|new)\s*\(\s*([0-9_\.]+?)_?(?:u64|u32|u128|usize|f64|f32)?\s*"
+                  r"(?:,\s*([0-9_]+?)_?(?:u32)?\s*)?\)", code)
     secs = None
     if m:
         v = float(m.group(2).replace("_", ""))
         unit = {"from_secs": 1.0, "from_millis": 1e-3, "from_micros": 1e-6, "from_nanos": 1e-9, "from_secs_f64": 1.0,
                 "from_secs_f32": 1.0, "new": 1.0}[m.group(1)]
         secs = v * unit + (float(m.group(3).replace("_", "")) * 1e-9 if m.group(3) else 0.0)
-    uses = len(re.findall(r"\.elapsed\(\)\s*>=?\s*MAX_ANALYSIS_DURATION\b", code))
+    # either orientation of the comparison, with or without a path prefix
+    uses = len(re.findall(r"\.elapsed\(\)\s*>=?\s*(?:\w+::)*MAX_ANALYSIS_DURATION\b", code)) \
+        + len(re.findall(r"\bMAX_ANALYSIS_DURATION\s*<=?\s*[\w\.]+\.elapsed\(\)", code))
     return {"seconds": secs, "uses": uses}
 
 
